@@ -37,7 +37,7 @@ PROBES = [
     "vector_checked", "pair_both_directions", "create_frames_reentered", "dynamic_lookup_created_frames", "unknown_frame_refused", "mutated_then_queried_again",
     "registration_interleaved", "config_flip_after_first_use", "restart", "kernel_fault_fired", "without_pck", "date_last_minute_of_day", "analytic_history_independent",
     "analytic_within_series_accuracy", "builtin_frame_to_body", "analytic_other_body_on_neighbouring_days", "reversed_propagator_checked", "non_cartesian_state_changed_body", "frame_attached_to_a_jpl_orbit", "kernel_frame_served_after_analytic_namesake", "pickled_body_state_converted",
-    "kernel_variant_type3", "kernel_variant_reordered", "kernel_variant_split", "kernel_variant_split_reordered", "kernel_variant_upper", "kernel_variant_geomoon", "kernel_variant_override", "body_table_generated", "constant_files_upper_case_extension", "centre_offset_asked_directly", "propagated_after_in_place_change",
+    "kernel_variant_type3", "kernel_variant_reordered", "kernel_variant_split", "kernel_variant_split_reordered", "kernel_variant_upper", "kernel_variant_geomoon", "kernel_variant_override", "kernel_variant_ghost_first", "orbit_changed_in_place_after_as_frame", "body_table_generated", "constant_files_upper_case_extension", "centre_offset_asked_directly", "propagated_after_in_place_change",
 ]
 REAL_VS_STUB = "real: beyond.env.jpl (Bsp/Pck singletons, JplPropagator, create_frames, get_orbit, get_frame), frames/centres routing, Date, jplephem reading the real DE403 2000-2020 kernel and the real PCK text files (faulted copies in a scratch directory); stub: none; model: own jplephem handle on the intact kernel chained segment by segment, own TDB (sim/models/timescales.py)"
 ASSUMPTIONS = [
@@ -54,7 +54,7 @@ PCKS = ["pck00010.tpc", "gm_de431.tpc"]
 _model = {}
 _variants = {}
 
-KERNEL_VARIANTS = ("stock", "type3", "reordered", "split", "split_reordered", "upper", "geomoon", "override")
+KERNEL_VARIANTS = ("stock", "type3", "reordered", "split", "split_reordered", "upper", "geomoon", "override", "ghost_first")
 
 
 def _variant_dir():
@@ -148,6 +148,9 @@ def kernel_files(variant):
         return [os.path.join(JPL_DIR, BSP)]
     if variant in _variants and all(os.path.exists(f) for f in _variants[variant]):
         return _variants[variant]
+    if variant == "ghost_first":
+        # a file that does not exist listed before the kernel: skipped with a warning, the kernel listed after it is served
+        return ["/nonexistent/ghost_kernel.bsp", os.path.join(JPL_DIR, BSP)]
     d = _variant_dir()
     if variant == "upper":
         # the stock file under a name whose extension is in upper case (a link: nothing is copied)
@@ -202,7 +205,7 @@ def model_kernel(variant="stock"):
         from jplephem.spk import SPK
         from jplephem.names import target_names
 
-        m = {"spk": [SPK.open(f) for f in kernel_files(variant)]}
+        m = {"spk": [SPK.open(f) for f in kernel_files(variant) if os.path.exists(f)]}
         seg = {}
         for spk in m["spk"]:
             for s in spk.segments:
@@ -255,6 +258,9 @@ def gen_date(rng):
     if rng.random() < 0.06:
         # exactly 00:00:00 UTC on a day a leap second takes effect: the new TAI-UTC applies from that reading on
         return [rng.choice([53736, 54832, 56109, 57204, 57754]), 0.0, "UTC"]
+    if rng.random() < 0.06:
+        # any time (but the last minutes) of a day that ends with a leap second
+        return [rng.choice([53735, 54831, 56108, 57203, 57753]), float(rng.randrange(3600, 80000)), rng.choice(["UTC", "TAI", "TT"])]
     day = rng.randint(51560, 58800)  # 2000-01-15 .. 2019-11-13, inside the kernel
     r = rng.random()
     if r < 0.35:
@@ -279,7 +285,7 @@ def gen_plan(rng, tier, i):
         "fault": None,
         "explicit_create": rng.random() < 0.8,
     }
-    kn["kernel"] = child.choice(["stock"] * 5 + ["type3", "type3", "reordered", "reordered", "split", "split_reordered", "upper", "geomoon", "geomoon", "override", "override"])
+    kn["kernel"] = child.choice(["stock"] * 5 + ["type3", "type3", "reordered", "reordered", "split", "split_reordered", "upper", "geomoon", "geomoon", "override", "override", "ghost_first", "ghost_first"])
     kn["pck_upper"] = child.random() < 0.15  # constant files given under an upper-case extension
     if rng.random() < 0.15:
         kn["fault"] = {"kind": rng.choice(["bsp_missing", "bsp_empty", "bsp_truncated", "pck_missing", "pck_damaged"]), "at": rng.random()}
@@ -692,6 +698,9 @@ class World:
             o = jpl.get_orbit(name, date)
             kw = {"orientation": op["orient"]} if op.get("orient") else {}
             o.as_frame(fname, **kw)
+            if op["n"] % 3 == 0 and not op.get("orient"):
+                o.frame = "EME2000" if name != "Earth" else "Sun"  # the caller goes on with its orbit: converted in place after it gave its name to the frame
+                ctx.probe("orbit_changed_in_place_after_as_frame")
             probe = n.StateVector([0.0] * 6, date, "cartesian", fname)
             return np.array(probe.copy(frame="EME2000"), dtype=float)
 
